@@ -1,7 +1,7 @@
 (* C05 -- property theorems only.  Proofs live in C05/Proofs*.v. *)
-From Coq Require Import NArith List Bool.
+From Coq Require Import NArith List Bool Permutation.
 From DV Require Import Base.Outcome Base.Bytes Base.Names Base.PName
-  C05.Schema C05.Gen C05.Model C05.OptModel C05.SvcModel C05.SvcBuf C05.TxtModel C05.ProofsA C05.ProofsB C05.ProofsC C05.ProofsD C05.ProofsE C05.ProofsF C05.ProofsG C05.ProofsH C05.Proofs C05.ProofsI C05.ProofsJ C05.ProofsK C05.ProofsL C05.ProofsM C05.ProofsN.
+  C05.Schema C05.Gen C05.Model C05.OptModel C05.SvcModel C05.SvcBuf C05.TxtModel C05.ProofsA C05.ProofsB C05.ProofsC C05.ProofsD C05.ProofsE C05.ProofsF C05.ProofsG C05.ProofsH C05.Proofs C05.ProofsI C05.ProofsJ C05.ProofsK C05.ProofsL C05.ProofsM C05.ProofsN C05.ProofsO.
 Import ListNotations.
 Local Open Scope N_scope.
 
@@ -377,3 +377,38 @@ Theorem C05_txt_build_wf : forall ops, Forall op_ok ops -> Forall (fun b => wf_b
   wf_fval true FCharStrs (VStrs (txt_build ops)) = true.
 Proof. exact txt_build_wf. Qed.
 Print Assumptions C05_txt_build_wf.
+
+(* SvcParamsBuilder::push_raw's scan over the values in PHYSICAL (push) order:
+   it is independent of that order (keys distinct), ... *)
+Theorem C05_scan_order_independent : forall key c1 c2,
+  Permutation c1 c2 -> NoDup (map c_key c1) ->
+  forall p n, scan key c1 p n = scan key c2 p n.
+Proof. exact scan_perm. Qed.
+Print Assumptions C05_scan_order_independent.
+
+(* ... it finds exactly the neighbours of the new key in key order -- the last
+   cell below it (with the offset of ITS slot) and the first cell above it (with
+   ITS start offset) -- whatever the physical order, ... *)
+Theorem C05_scan_neighbours : forall key cells l1 l2,
+  Permutation (l1 ++ l2) cells -> asc 0 (l1 ++ l2) ->
+  (forall c, In c l1 -> c_key c < key) ->
+  match l2 with c :: _ => key < c_key c | [] => True end ->
+  scan key cells None None =
+    Some (match rev l1 with c :: _ => Some (c_key c, slot c) | [] => None end,
+          match l2 with c :: _ => Some (c_key c, c_start c) | [] => None end).
+Proof. exact scan_neighbours. Qed.
+Print Assumptions C05_scan_neighbours.
+
+(* ... and a key that is already present is reported as a duplicate wherever it sits *)
+Theorem C05_scan_duplicate : forall key cells l, Permutation l cells -> asc 0 l ->
+  (exists c, In c l /\ c_key c = key) -> scan key cells None None = None.
+Proof. exact scan_duplicate. Qed.
+Print Assumptions C05_scan_duplicate.
+
+(* freeze follows the chain: a chain through cells found by their start offsets
+   is copied out in chain order *)
+Theorem C05_follow_chain : forall cells, NoDup (map c_start cells) ->
+  forall l q fuel, chain q l PMAX -> (forall c, In c l -> In c cells /\ c_start c <> PMAX) ->
+  (length l < fuel)%nat -> follow fuel cells q = Ok (map kd l).
+Proof. exact follow_chain. Qed.
+Print Assumptions C05_follow_chain.
